@@ -3300,7 +3300,13 @@ class UTPM(Ring, RawAlgorithmsMixIn):
 
         """
 
-        in_X = numpy.array(in_X)
+        if not isinstance(in_X, numpy.ndarray):
+            # (numpy.array(in_X) would descend into the blocks, which are sequences themselves)
+            blocks = in_X
+            in_X = numpy.empty((len(blocks), len(blocks[0])), dtype=object)
+            for r, row in enumerate(blocks):
+                for c, block in enumerate(row):
+                    in_X[r,c] = block
         Rb,Cb = numpy.shape(in_X)
 
         # find the degree D and number of directions P
